@@ -15,6 +15,7 @@ CONSTANTS
   FinalReset = TRUE
   CompRebases = FALSE
   MaxUser = 0
+  CompSkips = FALSE
 INVARIANT TypeOK
 INVARIANT RowsTrue
 INVARIANT NominalReproduced
